@@ -674,6 +674,8 @@ class Model:
             return result
         finally:
             self.executing.pop()
+            if result is not None and result[0] == 'exc':
+                pred.ctx.add('threw')     # the call left by exception: it still counts as handled (C08)
             if tr is not None:
                 pred.trace.append((tr[0], tr[1], e.id, fn, tuple(args), result))
                 pred.trig.add('traced')
